@@ -405,6 +405,8 @@ func Keys(opts []cat.Opts, cb bool) []*cat.Catalog {
 		func() []cat.Result { return []cat.Result{as("T0", "I0/n")} },
 		func() []cat.Result { return []cat.Result{one("T0"), one("T0/n")} },
 		func() []cat.Result { return []cat.Result{one("I1")} },
+		func() []cat.Result { return []cat.Result{{Ks: []string{"I0@g", "I1@g"}, M: "grp", CT: "T1"}} },
+		func() []cat.Result { return []cat.Result{{Ks: []string{"I1@g"}, M: "grp", CT: "T2"}} },
 	}
 	pls := []Place{{"r", false}, {"a", false}, {"a", true}}
 	var out []*cat.Catalog
@@ -430,6 +432,8 @@ func Keys(opts []cat.Opts, cb bool) []*cat.Catalog {
 					}
 					c.Fns["i1"] = inv(par("I0", "req", 0), par("I1", "opt", 1))
 					c.Fns["i2"] = inv(par("T0", "opt", 1), par("T0/n", "opt", 1), par("T0@g", "grp", 1), par("I0/n", "opt", 1))
+					c.Fns["i3"] = inv(par("I1@g", "grp", 1))
+					c.Fns["i4"] = inv(par("I0@g", "grp", 1), par("T0@g", "soft", 1))
 					c.Note = fmt.Sprintf("keys %d,%d,%d pl=%d", x, y, z, pi)
 					out = append(out, finish(c, opts, cb))
 				}
